@@ -31,6 +31,6 @@ func init() {
 		Mutant{Name: "c07-pool-value-leaks-on-nil-join", Property: "C07", Rule: "C07.pool", Edits: []Edit{{"scan.go",
 			"\t\t\tif !isNilPtrValue { // ignore if value is nil\n", "\t\t\tif isNilPtrValue {\n\t\t\t\tcontinue\n\t\t\t}\n\t\t\tif !isNilPtrValue { // ignore if value is nil\n"}}},
 		Mutant{Name: "c07-stmt-cache-evict-without-lock", Property: "C07", Rule: "C07.stmt-cache.map", Edits: []Edit{{"prepare_stmt.go",
-			"\t\t\tdb.Mux.Lock()\n\t\t\tdefer db.Mux.Unlock()\n\t\t\tgo stmt.Close()\n\t\t\tdelete(db.Stmts, query)", "\t\t\tgo stmt.Close()\n\t\t\tdelete(db.Stmts, query)"}}},
+			"\t\t\tdb.Mux.Lock()\n\t\t\tdefer db.Mux.Unlock()\n\t\t\tgo stmt.Close()\n", "\t\t\tgo stmt.Close()\n"}}},
 	)
 }
